@@ -326,6 +326,9 @@ def cases(tier, seed):
     add("3-D 5 points 2 tetrahedra n=2, hull vertices in the order [4,3,2,1,0]", "sample_case", npts=5, d=3, simplices=[[0, 1, 2, 3], [1, 2, 3, 4]], indices=[1, 0], vertex_order=[4, 3, 2, 1, 0])
     add("QMC Halton 2-D 2 triangles counts=[1,1], hull vertices in the order [1,2,3,0]", "sample_case", npts=4, d=2, simplices=tri2, indices=[], engine="Halton", counts=[1, 1],
         vertex_order=[1, 2, 3, 0])
+    # the seed 0 is a seed like any other
+    add("2-D 4 points 2 triangles n=2 seed=0", "sample_case", npts=4, d=2, simplices=tri2, indices=[1, 0], seed=0)
+    add("QMC Sobol 2-D 2 triangles counts=[1,1] seed=0", "sample_case", npts=4, d=2, simplices=tri2, indices=[], engine="Sobol", counts=[1, 1], seed=0)
     add("2-D 3 points 1 triangle n=2", "sample_case", npts=3, d=2, simplices=[[0, 1, 2]], indices=[0, 0])
     add("2-D 5 points 3 triangles n=3", "sample_case", npts=5, d=2, simplices=tri3, indices=[2, 0, 1])
     add("3-D 5 points 2 tetrahedra n=2", "sample_case", npts=5, d=3, simplices=[[0, 1, 2, 3], [1, 2, 3, 4]], indices=[1, 0])
